@@ -1,5 +1,7 @@
 import XpmVerif.Basic.JsonUtil
 import XpmVerif.Model.Validate
+import XpmVerif.Model.ValidateMro
+import XpmVerif.Model.ValidateX
 /-! Line-protocol driver for M6/validate (C15).  `lake env lean --run Drive/C15.lean < ops.jsonl` -/
 open Lean XpmVerif XpmVerif.J XpmVerif.Validate
 
@@ -91,6 +93,9 @@ def graphOf (j : Json) : Graph :=
   { classes := (arrF j "classes").map (fun c => (arr c).map argOf), nodes := (arrF j "nodes").map nodeOf,
     tasks := (arrF j "tasks").map nat }
 
+def classDeclOf (j : Json) : ClassDecl :=
+  { bases := (arrF j "bases").map nat, mro := (arrF j "mro").map nat, own := (arrF j "own").map (fun a => (strF a "name", argOf a)) }
+
 def opOf (j : Json) : HOp :=
   if strF j "o" == "submit" then .submit (natF j "n") else .assign (natF j "n") (natF j "k") (valOf (fld j "v"))
 
@@ -102,12 +107,12 @@ def houtJ : HOut → Json
 def natsJ (l : List Nat) : Json := Json.arr ((l.mergeSort (· ≤ ·)).map (fun (n : Nat) => (n : Json))).toArray
 
 /-- run a history, printing for every operation the outcome and the state after it -/
-def runHist (I : Impl) : HState → List HOp → List Json
+def runHist (I : Impl) (H : Hooks) : HState → List HOp → List Json
   | _, [] => []
   | s, op :: ops =>
-    let r := hstep I s op
+    let r := hstepX I (fun _ _ => none) H s op
     Json.mkObj [("out", houtJ r.1), ("registry", r.2.registry.length), ("flags", natsJ r.2.flags.eraseDups),
-                ("job", natsJ r.2.jobAttr)] :: runHist I r.2 ops
+                ("job", natsJ r.2.jobAttr)] :: runHist I H r.2 ops
 
 def outJ : Out → Json
   | .ok => "ok" | .missing => "missing" | .fuel => "fuel"
@@ -129,7 +134,8 @@ def step (_ : Unit) (j : Json) : Unit × Json :=
       let a := argOf (fld j "arg")
       let v := valOf (fld j "v")
       let conf := conforms a.ty v
-      (match setArg I a v with
+      let ch : Option Chk := if isNull (fld (fld j "arg") "choices") then none else some (.choices ((arrF (fld j "arg") "choices").map valOf))
+      (match setArgX I { decl := a, checker := ch } v with
        | .ok w => Json.mkObj [("r", "ok"), ("v", valJ w), ("conf_in", conf), ("conf_out", conforms a.ty w || (!a.required && (match w with | .none => true | _ => false))),
                               ("eq", pyEq w v)]
        | .error e => Json.mkObj [("r", "err"), ("e", errJ e), ("conf_in", conf)])
@@ -137,16 +143,25 @@ def step (_ : Unit) (j : Json) : Unit × Json :=
     | "graph" =>
       let g := graphOf j
       let root := natF j "root"
-      let (o, vis) := validateFrom I g [] root
-      let (o2, vis2) := validateFrom I g vis root
-      let (so, s) := submit I g {} root
+      let hs := (arrF j "hooks").map (fun h => ((arr h).getD 0 Json.null |> nat, (arr h).getD 1 Json.null |> nat, valOf ((arr h).getD 2 Json.null)))
+      let H : Hooks := fun c vals => hs.any (fun h => h.1 == c && (match vals[h.2.1]? with | some (some v) => pyEq v h.2.2 | _ => false))
+      let (o, vis) := validateFromX I H g [] root
+      let (o2, vis2) := validateFromX I H g vis root
+      let (so, s) := submitX I H g {} root
       Json.mkObj [("validate", outJ o), ("again", outJ o2), ("flags", Json.arr ((vis.mergeSort (· ≤ ·)).map (fun (n : Nat) => (n : Json))).toArray),
         ("flags2", vis2.length), ("submit", outJ so), ("jobs", s.jobs.length),
         ("missing_deep", reachMissing g (allSuccs g) [root] []),
         ("missing_walk", reachMissing g (succs I g) [root] [])]
+    | "lib" =>
+      let lib : Lib := (arrF j "classes").map classDeclOf
+      let l := if strF j "lin" == "mro" then Lin.mro else Lin.dfs
+      Json.mkObj [("tables", Json.arr ((List.range lib.length).map (fun c =>
+        Json.arr ((argTable lib l c).map (fun e => Json.arr #[Json.str e.1, (e.2.1 : Json), (e.2.2.required : Json)])).toArray)).toArray)]
     | "history" =>
       let s0 : HState := { g := graphOf j }
-      Json.mkObj [("steps", Json.arr (runHist I s0 ((arrF j "ops").map opOf)).toArray)]
+      let hs := (arrF j "hooks").map (fun h => ((arr h).getD 0 Json.null |> nat, (arr h).getD 1 Json.null |> nat, valOf ((arr h).getD 2 Json.null)))
+      let H : Hooks := fun c vals => hs.any (fun h => h.1 == c && (match vals[h.2.1]? with | some (some v) => pyEq v h.2.2 | _ => false))
+      Json.mkObj [("steps", Json.arr (runHist I H s0 ((arrF j "ops").map opOf)).toArray)]
     | op => Json.mkObj [("error", Json.str s!"bad-op {op}")]
   ((), out)
 
